@@ -13,11 +13,18 @@ def main():
         print(__doc__)
         return 2
     if a[0] == "setup":
-        ok, out = core.lake_build(["AsamCmp", "driver"])
+        hdir = core.build_harness("asan")
+        from vlib import generated
+        print(generated.regenerate(hdir))
+        targets = ["AsamCmp", "driver"]
+        for spec in registry.SPECS.values():
+            for t in spec.lean_targets:
+                if t not in targets:
+                    targets.append(t)
+        ok, out = core.lake_build(targets)
         if not ok:
             print(out[-3000:])
             return 1
-        core.build_harness("asan")
         print("setup ok")
         return 0
     if a[0] == "replay":
